@@ -540,21 +540,29 @@ func (ex *Exec) doAppend(st *State, fr *Frame, c *ssa.CallCommon, args []Val, po
 		qi := "qi"
 		srcElem := read(app("bvsub", qi, base.ln))
 		srcLeaves := leavesOf(srcElem)
+		// the same source element addressed by the absolute index of the in-place result
+		srcElemAbs := read(app("bvsub", app("bvsub", qi, base.off), base.ln))
+		srcLeavesAbs := leavesOf(srcElemAbs)
 		li := 0
 		ex.checkAssigns(st, fr, base.elemAddr(base.ln), pos)
 		nt := leafMap(tree, func(l Sc) Sc {
 			_, inner := l.S.ArrParts()
 			oldA := sel(l.T, base.ref)
 			src := srcLeaves[li]
+			srcAbs := srcLeavesAbs[li]
 			li++
 			inNew := and(app("bvule", base.ln, qi), app("bvult", qi, newLen))
-			// in place
-			na := ex.vc.Fresh("appended", inner)
-			ex.assume(st, fmt.Sprintf("(forall ((qi (_ BitVec 64))) (! (= (select %s (bvadd %s qi)) (ite %s %s (select %s (bvadd %s qi)))) :pattern ((select %s (bvadd %s qi)))))", na, base.off, inNew, src.T, oldA, base.off, na, base.off))
-			// fresh
-			nf := ex.vc.Fresh("appendedf", inner)
-			ex.arrayDef(st, nf, inner, ite(inNew, src.T, sel(oldA, app("bvadd", base.off, "qi"))), app("bvult", "qi", newLen))
-			return Sc{ite(fits, sto(l.T, base.ref, na), sto(l.T, fresh, nf)), l.S}
+			// in place: every index outside the appended range keeps its content
+			// (absolute indices, so that constant offsets match the trigger)
+			// one array for the result's backing store, whichever case applies:
+			// in place (indices absolute, offset kept) or reallocated (offset 0)
+			ra := ex.vc.Fresh("appended", inner)
+			rel := app("bvsub", qi, base.off)
+			inNewAbs := and(app("bvule", base.off, qi), app("bvule", base.ln, rel), app("bvult", rel, newLen))
+			inPlace := ite(inNewAbs, srcAbs.T, sel(oldA, "qi"))
+			realloc := ite(inNew, src.T, sel(oldA, app("bvadd", base.off, "qi")))
+			ex.arrayDef(st, ra, inner, ite(fits, inPlace, realloc), "")
+			return Sc{sto(l.T, ite(fits, base.ref, fresh), ra), l.S}
 		})
 		ex.setHeapTree(st, AElems, el, nt)
 	} else {
